@@ -37,6 +37,17 @@ pub(crate) mod verif_kani_names {
         let documented = matches!(f, Function::CurrentDate | Function::CurrentUid | Function::CurrentUser | Function::CurrentGid | Function::CurrentGroup);
         assert!(f.is_argumentless_function() == documented, "OBL C11.argless.table");
     }
+    // C07: exactly the nine documented aggregate functions are aggregate functions
+    #[kani::proof]
+    fn c07_aggregate_table() {
+        let k: u8 = kani::any();
+        kani::assume(k < N_FUNCTIONS);
+        kani::cover!(k == N_FUNCTIONS - 1);
+        let f = function_at(k);
+        let documented = matches!(f, Function::Min | Function::Max | Function::Avg | Function::Sum | Function::Count
+            | Function::StdDevPop | Function::StdDevSamp | Function::VarPop | Function::VarSamp);
+        assert!(f.is_aggregate_function() == documented, "OBL C07.aggregate.table");
+    }
     #[kani::proof]
     #[kani::unwind(20)]
     fn canary_fnnames_must_fail() { assert!(Function::from_str("len") == Ok(Function::Lower), "CANARY must fail"); }
